@@ -348,3 +348,41 @@ func VerifH_C05_ReadLength() {
 		verifAssert(err == nil, "C05.inbound_empty_body")
 	}
 }
+
+// C05 (i): identifiers the client itself puts on PUBLISH (QoS>0) / SUBSCRIBE / UNSUBSCRIBE packets are
+// well-formed, i.e. never 0 [MQTT-2.3.1-1], whatever the age of the connection: the identifier counter
+// starts from an arbitrary 32-bit value.  The request is issued through the public API with an already
+// cancelled context (the packet is written, the call returns) and the wire is read back.
+func VerifH_C05_ClientIDs() {
+	conn := newVconn("c0")
+	conn.answerConnect([]byte{0x20, 2, 0, 0})
+	cli := &BaseClient{Transport: conn}
+	if _, err := cli.Connect(contextBackground(), "cid"); err != nil {
+		verifAssert(false, "C05.harness_connect")
+		return
+	}
+	cli.idLast = verifNondetU32("idlast")
+	ctx, cancel := contextCancelled()
+	defer cancel()
+	n0 := len(conn.okWrites())
+	kind := verifChoice("req", 4)
+	switch kind {
+	case 0:
+		_ = cli.Publish(ctx, &Message{Topic: "t", QoS: QoS1, Payload: []byte{1}})
+	case 1:
+		_ = cli.Publish(ctx, &Message{Topic: "t", QoS: QoS2, Payload: []byte{1}})
+	case 2:
+		_, _ = cli.Subscribe(ctx, Subscription{Topic: "a", QoS: QoS1})
+	case 3:
+		_ = cli.Unsubscribe(ctx, "a")
+	}
+	w := conn.okWrites()
+	verifAssert(len(w) == n0+1, "C05.request_written")
+	if len(w) != n0+1 {
+		return
+	}
+	p := refDecode(w[n0])
+	verifAssert(p.ok, "C05.request_wellformed")
+	verifReach("request-written")
+	verifAssert(p.id != 0, "C05.client_chosen_identifier_nonzero")
+}
